@@ -21,6 +21,12 @@
  * doc/regp.txt (header layout through spec/regp.h, an independent reading of
  * the document); helper preconditions / frames come from the code.
  *
+ * The header is sectioned by proof unit: a target defines RPP_UNIT_REGP when
+ * src/register-protocol.c is part of its unit and RPP_UNIT_SINK when
+ * src/endpoints/continuable-sink.c is too (src/allocator.c is a unit of its
+ * own), and REGP_USE_WIRE_H to take the wire-side contracts from
+ * contracts/regp-wire.h instead of the locally ASSUMED ones.
+ *
  * Array facts at the ghost index g_k = "octet k of the payload" throughout
  * (request payload, back-end buffer, transmitted payload), g_j = "another
  * cell" for frames.
